@@ -1403,3 +1403,41 @@ pub fn around_every_limit_script(r: &mut Rng, index: u64, _tier: Tier) -> (CaseC
     s.push(Step::Disconnect(DiscSpec { reason: None, props: None, cancel_at: None }));
     (cfg, s)
 }
+
+
+/// Every check also runs its monitor over the scripted scenarios written for the *other*
+/// checks: a scenario built to corner one property is an ordinary history for the nineteen
+/// others, and a change that one check misses for lack of reach is often within reach of a
+/// scenario another check owns.  (The 65 535-allocation wrap script is drawn less often.)
+pub fn pooled_script(r: &mut Rng, index: u64, tier: Tier) -> (CaseCfg, Vec<Step>) {
+    const POOL: &[crate::checks::ScriptFn] = &[
+        ping_between_pieces_script,
+        stalled_probe_script,
+        c11_script,
+        c18_script,
+        c07_flush_fault_script,
+        c06_flush_fault_script,
+        c07_smaller_limit_script,
+        disconnect_given_up_script,
+        replay_blocked_by_a_smaller_limit_script,
+        release_on_a_full_arena_script,
+        limits_across_connections_script,
+        disconnect_asked_again_script,
+        around_every_limit_script,
+        saturation_script,
+        c04_script,
+        c10_script,
+        c14_script,
+    ];
+    let k = (index as usize) % (POOL.len() * 4 + 1);
+    if k == POOL.len() * 4 {
+        return crate::checks::wrap_script(r, index, tier);
+    }
+    let (mut cfg, steps) = POOL[k % POOL.len()](r, index / POOL.len() as u64, tier);
+    // (a receive buffer that cannot hold a CONNACK is a configuration error C14 plays with on
+    // purpose; for everybody else it is a history in which nothing happens)
+    if cfg.rx < 16 {
+        cfg.rx = 128;
+    }
+    (cfg, steps)
+}
